@@ -451,14 +451,26 @@ def judge(ctx, spec, inp, ex, obs, replay, idx):
 def is_refusal(spec, e):
     """inputs the property does not promise to accept: fewer records than centres (some centre stays empty, C09/C12),
     or generated centres (patch_num) of which one attracts no record / fewer records than patches"""
+    if spec["mode"] == "create":
+        # the k-means step (treecorr, randomly initialised) may leave a centre without any record: its coordinates are NaN and
+        # the assignment refuses them ("array must not contain infs or NaNs"); with worker processes that refusal reaches the
+        # caller as RuntimeError("writer process failed") whose context is the ValueError - follow the chain
+        chain, seen = [], set()
+        x = e
+        while x is not None and id(x) not in seen:
+            seen.add(id(x))
+            chain.append(x)
+            x = x.__cause__ or x.__context__
+        for x in chain:
+            if isinstance(x, ValueError) and ("contains no data" in str(x) or "patch centers and patch IDs with data do not match" in str(x)
+                                              or "must not contain infs or NaNs" in str(x)):
+                return True
+        return isinstance(e, ValueError) and spec["n"] < spec["ncent"]
     if not isinstance(e, ValueError):
         return False
     msg = str(e)
     if HAS_CENTRES[spec["mode"]] and spec["n"] < spec["ncent"]:
         return "contains no data" in msg or "patch centers and patch IDs with data do not match" in msg
-    if spec["mode"] == "create":
-        return ("contains no data" in msg or "patch centers and patch IDs with data do not match" in msg
-                or (spec["n"] < spec["ncent"]))
     return False
 
 
